@@ -109,6 +109,12 @@ def derivation(text_or_node, defs, params):
         inner = derivation(node.func.value, defs, params)
         if inner is not None:
             return ('.' + node.func.attr + '()' + inner[0], inner[1])
+    if isinstance(node, ast.IfExp):
+        a = derivation(node.body, defs, params)
+        b = derivation(node.orelse, defs, params)
+        used = {n.id for n in ast.walk(node.test) if isinstance(n, ast.Name)} & set(params)
+        if a is not None and b is not None and a[1] == b[1] and used <= {a[1]}:
+            return (f'({a[0] or "raw"} | {b[0] or "raw"} depending on its own type)', a[1])
     if isinstance(node, ast.BoolOp) and isinstance(node.op, ast.Or) and len(node.values) == 2 and isinstance(node.values[1], ast.Constant):
         inner = derivation(node.values[0], defs, params)
         if inner is not None:
